@@ -298,7 +298,7 @@ static void write_objective (
 	const char *objname,
 	char **colnames)
 {
-	int ri, i, k, var;
+	int ri, i, k, var, nlines = 0;
 	EGLPNUM_TYPENAME_ILLwrite_lp_state ln, *line = &ln;
 
 	if (lp->probname != NULL)
@@ -356,10 +356,13 @@ static void write_objective (
 				var = 0;								/* next line does not need to prefix coef with '+' */
 				EGLPNUM_TYPENAME_ILLprint_report (lp, "%s\n", line->buf);
 				EGLPNUM_TYPENAME_ILLwrite_lp_state_start (line);
+				nlines++;
 			}
 		}
 	}
-	if (var > 0)
+	/* an objective without terms still gets its label: the reader would call
+	 * it "obj" otherwise, losing its name or clashing with a row of that name */
+	if (var > 0 || nlines == 0)
 	{
 		EGLPNUM_TYPENAME_ILLprint_report (lp, "%s\n", line->buf);
 	}
